@@ -1,29 +1,302 @@
 package main
 
-// Goroutines, channels, select.
+// Goroutines, channels, select: a cooperative scheduler. Every interpreted goroutine
+// runs on its own host goroutine, but only the holder of the token executes; at each
+// synchronisation operation (go, channel send/receive/close, select, mutex, WaitGroup,
+// goroutine exit) the scheduler choice "who runs next" is a recorded decision point,
+// so interleavings are explored like any other choice and are part of the model.
 
 import (
+	"fmt"
 	"go/types"
+	"os"
 
 	"golang.org/x/tools/go/ssa"
 )
 
+var debugSched = os.Getenv("SYMGO_DEBUG_SCHED") != ""
+
 type goroutine struct {
-	id int
+	id       int
+	resume   chan resumeMsg
+	done     bool
+	waitCond func() bool // nil = runnable; otherwise runnable when it returns true
+	why      string
+	started  bool
 }
 
-type scheduler struct{}
+type resumeMsg struct {
+	kill     bool
+	deadlock bool
+}
+
+type goroutineKilled struct{}
+
+type scheduler struct {
+	gs      []*goroutine
+	cur     *goroutine
+	main    *goroutine
+	points  int
+	pending interface{} // a panic raised in a non-main goroutine, to be re-raised in main
+	maxPoints int
+}
+
+func (it *Interp) resetScheduler() {
+	if it.sched != nil {
+		it.killGoroutines()
+	}
+	m := &goroutine{id: 0, resume: make(chan resumeMsg), started: true}
+	it.sched = &scheduler{gs: []*goroutine{m}, cur: m, main: m, maxPoints: 400}
+}
+
+// killGoroutines unblocks and unwinds every host goroutine still parked (end of path).
+func (it *Interp) killGoroutines() {
+	s := it.sched
+	if s == nil {
+		return
+	}
+	for _, g := range s.gs {
+		if g != s.main && !g.done && g.started {
+			g.resume <- resumeMsg{kill: true}
+			<-s.main.resume // the killed goroutine reports back
+		}
+	}
+}
+
+func (s *scheduler) runnable() []*goroutine {
+	var out []*goroutine
+	for _, g := range s.gs {
+		if g.done {
+			continue
+		}
+		if g.waitCond == nil || g.waitCond() {
+			out = append(out, g)
+		}
+	}
+	return out
+}
+
+// transfer hands the token from the current goroutine to next and parks the current
+// host goroutine until it is resumed.
+func (it *Interp) transfer(next *goroutine) {
+	s := it.sched
+	cur := s.cur
+	if next == cur {
+		return
+	}
+	s.cur = next
+	it.wake(next)
+	it.park(cur)
+}
+
+func (it *Interp) wake(g *goroutine) {
+	if !g.started {
+		g.started = true
+		go g.run()
+		return
+	}
+	g.resume <- resumeMsg{}
+}
+
+func (it *Interp) park(g *goroutine) {
+	msg := <-g.resume
+	it.sched.cur = g
+	if msg.kill {
+		panic(goroutineKilled{})
+	}
+	if msg.deadlock {
+		panic(targetPanic{implicit: "all goroutines are asleep - deadlock!"})
+	}
+	if g == it.sched.main && it.sched.pending != nil {
+		p := it.sched.pending
+		it.sched.pending = nil
+		panic(p)
+	}
+}
+
+var goroutineBody = map[*goroutine]func(){}
+
+func (g *goroutine) run() { goroutineBody[g]() }
+
+// schedule picks the next goroutine to run among the runnable ones (a decision point).
+func (it *Interp) pickNext() *goroutine {
+	s := it.sched
+	rs := s.runnable()
+	if len(rs) == 0 {
+		return nil
+	}
+	s.points++
+	if s.points > s.maxPoints {
+		panic(unsupported(fmt.Sprintf("more than %d scheduling points on one path", s.maxPoints)))
+	}
+	if len(rs) == 1 {
+		return rs[0]
+	}
+	return rs[it.ex.chooseFree("sched", len(rs))]
+}
+
+// yieldPoint: the current goroutine stays runnable; anyone runnable may go next.
+func (it *Interp) yieldPoint(fr *frame, why string) {
+	s := it.sched
+	if s == nil || len(s.gs) == 1 {
+		return
+	}
+	// Non-preemptive by default: a goroutine runs until it blocks or exits, and only
+	// then is the next one chosen. For programs that synchronise through channels,
+	// mutexes and wait groups this explores every ordering of the segments between
+	// blocking points (the interleavings that can differ observably); a harness can
+	// ask for pre-emption at every synchronisation operation with verifPreemptive.
+	if !it.mstate.preemptive {
+		return
+	}
+	it.impure("scheduling point")
+	next := it.pickNext()
+	if next != nil && next != s.cur {
+		it.transfer(next)
+	}
+}
+
+// blockOn parks the current goroutine until cond holds. Returns false on deadlock (no
+// goroutine can run).
+func (it *Interp) blockUntil(fr *frame, why string, cond func() bool) {
+	s := it.sched
+	if cond() {
+		return
+	}
+	it.impure("blocking operation")
+	cur := s.cur
+	cur.waitCond = cond
+	cur.why = why
+	for !cond() {
+		next := it.pickNextExcludingBlocked()
+		if next == nil {
+			cur.waitCond = nil
+			panic(targetPanic{implicit: "all goroutines are asleep - deadlock! (" + why + ")"})
+		}
+		if next == cur {
+			break
+		}
+		it.transfer(next)
+	}
+	cur.waitCond = nil
+}
+
+func (it *Interp) pickNextExcludingBlocked() *goroutine { return it.pickNext() }
+
+// blockOn (legacy helper used by mutex code): wait until another goroutine made progress.
+func (it *Interp) blockOn(fr *frame, why string) bool {
+	s := it.sched
+	if s == nil || len(s.gs) == 1 {
+		return false
+	}
+	// become non-runnable for one scheduling round
+	cur := s.cur
+	released := false
+	cur.waitCond = func() bool { return released }
+	cur.why = why
+	var others []*goroutine
+	for _, g := range s.runnable() {
+		if g != cur {
+			others = append(others, g)
+		}
+	}
+	if len(others) == 0 {
+		cur.waitCond = nil
+		return false
+	}
+	released = true // once someone else has run we may re-check
+	cur.waitCond = nil
+	next := others[0]
+	if len(others) > 1 {
+		next = others[it.ex.chooseFree("sched", len(others))]
+	}
+	it.transfer(next)
+	return true
+}
+
+func (it *Interp) goStart(fr *frame, instr *ssa.Go, fn Value, args []Value) {
+	it.impure("go statement")
+	s := it.sched
+	g := &goroutine{id: len(s.gs), resume: make(chan resumeMsg)}
+	s.gs = append(s.gs, g)
+	goroutineBody[g] = func() {
+		defer func() {
+			delete(goroutineBody, g)
+			r := recover()
+			g.done = true
+			if _, killed := r.(goroutineKilled); killed {
+				s.main.resume <- resumeMsg{}
+				return
+			}
+			if r != nil {
+				// any abnormal end of a goroutine ends the path in main
+				if s.pending == nil {
+					s.pending = r
+				}
+				s.cur = s.main
+				s.main.waitCond = nil
+				s.main.resume <- resumeMsg{}
+				return
+			}
+			// normal exit: hand the token on
+			next := it.pickNextOnExit()
+			if next == nil {
+				// nobody can run: if main is blocked this is a deadlock
+				s.cur = s.main
+				s.main.resume <- resumeMsg{deadlock: true}
+				return
+			}
+			s.cur = next
+			it.wake(next)
+		}()
+		gfr := &frame{it: it, g: g}
+		it.curFrame = nil
+		it.call(gfr, instr.Pos(), fn, args)
+	}
+	it.yieldPoint(fr, "go")
+}
+
+func (it *Interp) pickNextOnExit() (g *goroutine) {
+	defer func() {
+		// a decision taken while exiting may end the path (budget, infeasible): route to main
+		if r := recover(); r != nil {
+			if it.sched.pending == nil {
+				it.sched.pending = r
+			}
+			g = it.sched.main
+			g.waitCond = nil
+		}
+	}()
+	return it.pickNext()
+}
+
+// ---- channels
+//
+// Rendezvous is atomic: a blocked receiver (plain or in a select) registers a waiter on
+// the channel; a sender that finds a live waiter hands the value over directly and
+// thereby resolves the receiver's select to that case (and symmetrically for blocked
+// senders). Buffered channels use buf.
+
+type selWait struct {
+	fired bool
+	idx   int
+	val   Value
+	ok    bool
+}
+
+type waiter struct {
+	sel     *selWait
+	caseIdx int
+	isSend  bool
+	val     Value // value offered by a blocked sender
+}
 
 type Chan struct {
 	buf    []Value
 	cap    int
 	closed bool
-	elem   types.Type
-}
-
-func (it *Interp) goStart(fr *frame, instr *ssa.Go, fn Value, args []Value) {
-	it.impure("concurrency")
-	panic(unsupported("go statement"))
+	recvq  []*waiter
+	sendq  []*waiter
 }
 
 func (it *Interp) makeChan(fr *frame, size Value) Value {
@@ -31,70 +304,290 @@ func (it *Interp) makeChan(fr *frame, size Value) Value {
 	return &Chan{cap: n}
 }
 
-func (it *Interp) chanSend(fr *frame, chv, v Value) {
-	it.impure("concurrency")
-	ch := chv.(*Chan)
-	if ch == nil {
-		if !it.blockOn(fr, "send on nil chan") {
-			panic(targetPanic{implicit: "all goroutines are asleep - deadlock! (send on nil channel)"})
+func liveWaiter(q []*waiter) *waiter {
+	for _, w := range q {
+		if !w.sel.fired {
+			return w
 		}
 	}
-	for {
-		if ch.closed {
-			panic(targetPanic{implicit: "send on closed channel"})
+	return nil
+}
+
+func (ch *Chan) canSend() bool {
+	return ch.closed || liveWaiter(ch.recvq) != nil || len(ch.buf) < ch.cap
+}
+
+func (ch *Chan) canRecv() bool {
+	return len(ch.buf) > 0 || liveWaiter(ch.sendq) != nil || ch.closed
+}
+
+// doSend performs a send known to be ready (canSend).
+func (it *Interp) doSend(ch *Chan, v Value) {
+	if ch.closed {
+		panic(targetPanic{implicit: "send on closed channel"})
+	}
+	if w := liveWaiter(ch.recvq); w != nil {
+		w.sel.fired, w.sel.idx, w.sel.val, w.sel.ok = true, w.caseIdx, copyVal(v), true
+		return
+	}
+	ch.buf = append(append([]Value{}, ch.buf...), copyVal(v))
+}
+
+// doRecv performs a receive known to be ready (canRecv).
+func (it *Interp) doRecv(ch *Chan, elem types.Type) (Value, bool) {
+	if len(ch.buf) > 0 {
+		v := ch.buf[0]
+		ch.buf = append([]Value{}, ch.buf[1:]...)
+		// a blocked sender can now move its value into the buffer
+		if w := liveWaiter(ch.sendq); w != nil {
+			ch.buf = append(ch.buf, w.val)
+			w.sel.fired, w.sel.idx = true, w.caseIdx
 		}
-		if len(ch.buf) < ch.cap {
-			old := ch.buf
-			it.ex.journal = append(it.ex.journal, undoEntry{fn: func() { ch.buf = old }})
-			ch.buf = append(append([]Value{}, ch.buf...), copyVal(v))
-			return
+		return v, true
+	}
+	if w := liveWaiter(ch.sendq); w != nil {
+		w.sel.fired, w.sel.idx = true, w.caseIdx
+		return w.val, true
+	}
+	return zero(elem), false // closed and drained
+}
+
+func removeWaiters(q []*waiter, sel *selWait) []*waiter {
+	var out []*waiter
+	for _, w := range q {
+		if w.sel != sel && !w.sel.fired {
+			out = append(out, w)
 		}
-		if !it.blockOn(fr, "chan send") {
-			panic(targetPanic{implicit: "all goroutines are asleep - deadlock! (chan send)"})
-		}
+	}
+	return out
+}
+
+func (it *Interp) chanSend(fr *frame, chv, v Value) {
+	it.impure("concurrency")
+	ch, _ := it.resolveNil(fr, chv).(*Chan)
+	it.yieldPoint(fr, "send")
+	if ch == nil {
+		it.blockUntil(fr, "send on nil channel", func() bool { return false })
+		return
+	}
+	if ch.canSend() {
+		it.doSend(ch, v)
+		return
+	}
+	sel := &selWait{}
+	ch.sendq = append(ch.sendq, &waiter{sel: sel, isSend: true, val: copyVal(v)})
+	it.blockUntil(fr, "chan send", func() bool { return sel.fired || ch.closed })
+	ch.sendq = removeWaiters(ch.sendq, sel)
+	if !sel.fired {
+		panic(targetPanic{implicit: "send on closed channel"})
 	}
 }
 
 func (it *Interp) chanRecv(fr *frame, chv Value, commaOk bool, elem types.Type) Value {
 	it.impure("concurrency")
-	ch := chv.(*Chan)
-	for {
-		if ch != nil && len(ch.buf) > 0 {
-			old := ch.buf
-			it.ex.journal = append(it.ex.journal, undoEntry{fn: func() { ch.buf = old }})
-			v := ch.buf[0]
-			ch.buf = append([]Value{}, ch.buf[1:]...)
-			if commaOk {
-				return Tuple{v, tTrue}
-			}
-			return v
-		}
-		if ch != nil && ch.closed {
-			if commaOk {
-				return Tuple{zero(elem), tFalse}
-			}
-			return zero(elem)
-		}
-		if !it.blockOn(fr, "chan recv") {
-			panic(targetPanic{implicit: "all goroutines are asleep - deadlock! (chan receive)"})
+	ch, _ := it.resolveNil(fr, chv).(*Chan)
+	it.yieldPoint(fr, "recv")
+	if ch == nil {
+		it.blockUntil(fr, "receive from nil channel", func() bool { return false })
+	}
+	var v Value
+	var ok bool
+	if ch.canRecv() {
+		v, ok = it.doRecv(ch, elem)
+	} else {
+		sel := &selWait{}
+		ch.recvq = append(ch.recvq, &waiter{sel: sel})
+		it.blockUntil(fr, "chan receive", func() bool { return sel.fired || ch.closed })
+		ch.recvq = removeWaiters(ch.recvq, sel)
+		if sel.fired {
+			v, ok = sel.val, true
+		} else {
+			v, ok = zero(elem), false
 		}
 	}
+	if commaOk {
+		return Tuple{v, mkBool(ok)}
+	}
+	return v
 }
 
 func (it *Interp) chanClose(fr *frame, chv Value) {
 	it.impure("concurrency")
-	ch := chv.(*Chan)
+	ch, _ := it.resolveNil(fr, chv).(*Chan)
 	if ch == nil {
 		panic(targetPanic{implicit: "close of nil channel"})
 	}
 	if ch.closed {
 		panic(targetPanic{implicit: "close of closed channel"})
 	}
-	it.ex.journal = append(it.ex.journal, undoEntry{fn: func() { ch.closed = false }})
 	ch.closed = true
+	it.yieldPoint(fr, "close")
 }
 
-func (it *Interp) selectStmt(fr *frame, instr *ssa.Select) Value { panic(unsupported("select")) }
+// selectStmt: among the ready cases one is chosen (a decision point); blocks if none is
+// ready and there is no default.
+func (it *Interp) selectStmt(fr *frame, instr *ssa.Select) Value {
+	it.impure("select")
+	type scase struct {
+		ch   *Chan
+		send bool
+		val  Value
+		elem types.Type
+	}
+	cases := make([]scase, len(instr.States))
+	for i, st := range instr.States {
+		ch, _ := it.resolveNil(fr, fr.get(st.Chan)).(*Chan)
+		c := scase{ch: ch, send: st.Dir == types.SendOnly, elem: st.Chan.Type().Underlying().(*types.Chan).Elem()}
+		if c.send {
+			c.val = fr.get(st.Send)
+		}
+		cases[i] = c
+	}
+	it.yieldPoint(fr, "select")
+	ready := func() []int {
+		var out []int
+		for i, c := range cases {
+			if c.ch == nil {
+				continue
+			}
+			if (c.send && c.ch.canSend()) || (!c.send && c.ch.canRecv()) {
+				out = append(out, i)
+			}
+		}
+		return out
+	}
+	perform := func(idx int) Value {
+		c := cases[idx]
+		if c.send {
+			it.doSend(c.ch, c.val)
+			return it.selectResult(instr, idx, nil, false)
+		}
+		v, ok := it.doRecv(c.ch, c.elem)
+		return it.selectResult(instr, idx, v, ok)
+	}
+	choose := func(rs []int) int {
+		if len(rs) == 1 {
+			return rs[0]
+		}
+		return rs[it.ex.chooseFree("select", len(rs))]
+	}
+	if rs := ready(); len(rs) > 0 {
+		return perform(choose(rs))
+	}
+	if !instr.Blocking {
+		return it.selectResult(instr, -1, nil, false)
+	}
+	// block: register on every channel
+	sel := &selWait{}
+	for i, c := range cases {
+		if c.ch == nil {
+			continue
+		}
+		if c.send {
+			c.ch.sendq = append(c.ch.sendq, &waiter{sel: sel, caseIdx: i, isSend: true, val: copyVal(c.val)})
+		} else {
+			c.ch.recvq = append(c.ch.recvq, &waiter{sel: sel, caseIdx: i})
+		}
+	}
+	anyClosed := func() bool {
+		for _, c := range cases {
+			if c.ch != nil && c.ch.closed {
+				return true
+			}
+		}
+		return false
+	}
+	it.blockUntil(fr, "select", func() bool { return sel.fired || anyClosed() })
+	fired := sel.fired
+	for _, c := range cases {
+		if c.ch != nil {
+			c.ch.sendq = removeWaiters(c.ch.sendq, sel)
+			c.ch.recvq = removeWaiters(c.ch.recvq, sel)
+		}
+	}
+	if fired {
+		c := cases[sel.idx]
+		if c.send {
+			return it.selectResult(instr, sel.idx, nil, false)
+		}
+		return it.selectResult(instr, sel.idx, sel.val, true)
+	}
+	// woken by a close: some case is ready now
+	sel.fired = true // no counterpart may complete with us any more
+	return perform(choose(ready()))
+}
+
+func (it *Interp) selectResult(instr *ssa.Select, chosen int, recv Value, recvOk bool) Value {
+	r := Tuple{mkInt(int64(chosen)), mkBool(recvOk)}
+	for i, st := range instr.States {
+		if st.Dir == types.RecvOnly {
+			var v Value
+			if i == chosen && recvOk {
+				v = recv
+			} else {
+				v = zero(st.Chan.Type().Underlying().(*types.Chan).Elem())
+			}
+			r = append(r, v)
+		}
+	}
+	return r
+}
+
+// quiesce lets every other goroutine run until none is runnable; returns how many are
+// still alive (blocked forever unless someone acts).
+func (it *Interp) quiesce(fr *frame) int {
+	s := it.sched
+	for {
+		var others []*goroutine
+		for _, g := range s.runnable() {
+			if g != s.cur {
+				others = append(others, g)
+			}
+		}
+		if len(others) == 0 {
+			break
+		}
+		// main waits until no other goroutine can run
+		cur := s.cur
+		cur.waitCond = func() bool {
+			for _, g := range s.runnable2(cur) {
+				_ = g
+				return false
+			}
+			return true
+		}
+		next := others[0]
+		if len(others) > 1 {
+			next = others[it.ex.chooseFree("sched", len(others))]
+		}
+		it.transfer(next)
+		cur.waitCond = nil
+	}
+	alive := 0
+	for _, g := range s.gs {
+		if g != s.cur && !g.done {
+			alive++
+			if debugSched {
+				fmt.Fprintf(os.Stderr, "quiesce: goroutine %d still alive, blocked on %q (started=%v)\n", g.id, g.why, g.started)
+			}
+		}
+	}
+	return alive
+}
+
+// runnable2: runnable goroutines other than except.
+func (s *scheduler) runnable2(except *goroutine) []*goroutine {
+	var out []*goroutine
+	for _, g := range s.gs {
+		if g == except || g.done {
+			continue
+		}
+		if g.waitCond == nil || g.waitCond() {
+			out = append(out, g)
+		}
+	}
+	return out
+}
 
 // ---- lock logging (C08)
 
@@ -104,10 +597,3 @@ func (l *lockLogger) access(fr *frame, p *Value, write bool)         {}
 func (l *lockLogger) accessObj(fr *frame, o interface{}, write bool) {}
 func (l *lockLogger) lock(fr *frame, p *Value)                       {}
 func (l *lockLogger) unlock(fr *frame, p *Value)                     {}
-
-// blockOn parks the current goroutine until another makes progress; returns false if
-// no other goroutine can run (deadlock).
-func (it *Interp) blockOn(fr *frame, why string) bool { return false }
-
-// yieldPoint is a scheduling point.
-func (it *Interp) yieldPoint(fr *frame, why string) {}
